@@ -57,6 +57,9 @@ def cases(tier, seed):
         s["Qnorm"] = "unit" if r < 0.5 else ("common" if r < 0.75 else "nodewise")
         if s["Qnorm"] == "nodewise":
             s["assemble"] = "plain"
+        if rng.random() < 0.25:
+            s["q0"] = "perturbed"          # rod constructed with an initial configuration that is NOT the reference
+            s["assemble"] = "plain"
     return specs
 
 
@@ -276,6 +279,7 @@ def run_case(spec, ctx):
         for c in rodgen.classes(spec):
             ctx.cls(c)
         ctx.cls("Qnorm:" + spec.get("Qnorm", "unit"))
+        ctx.cls("q0:" + spec.get("q0", "reference"))
         if R.assemble_error:
             ctx.count("assemble_with_consistent_initial_conditions_failed")
             ctx.extra("assemble_error_example", {"formulation": rodgen.formulation_name(spec), "nel": spec["nel"],
